@@ -282,33 +282,47 @@ def check_estimators(ck: Checker, prog: Program, rule: str):
             else:
                 ck.violation(rule, f"statistics.{tname}", f"{k[0]}/{k[1]}",
                              f"transform for ({k[0]}, {k[1]}) is {got}, expected {want[k]}", loc=f"hvsrpy/statistics.py:{lam.lineno}")
-    # ---- factory wiring
+    # ---- factory wiring, by value: for every accepted spelling of the distribution and both calculations, the functions handed
+    #      back apply the stated transforms (whatever the order of its parameters and of the tuple it returns); other names raise
+    from ..pathtable import PathTable, outcomes, specialise, tidy_items
     fac = prog.func("statistics._distribution_factory")
-    rets = returns_of(fac)
-    src: Dict[str, str] = {}
-    for st in own_nodes(fac.node):
-        if isinstance(st, ast.Assign) and isinstance(st.targets[0], ast.Name) and isinstance(st.value, ast.Subscript):
-            root = st.value
-            keys = []
-            while isinstance(root, ast.Subscript):
-                keys.append(unparse(root.slice))
-                root = root.value
-            if isinstance(root, ast.Name):
-                src[st.targets[0].id] = f"{root.id}[{']['.join(reversed(keys))}]"
-    good = len(rets) == 1 and isinstance(rets[0].value, ast.Tuple) and len(rets[0].value.elts) == 2
-    if good:
-        a, b = rets[0].value.elts
-        good = isinstance(a, ast.Name) and isinstance(b, ast.Name) and \
-            src.get(a.id) == "PRE_PROCESS_FUNCTION_MAP[distribution][calculation]" and \
-            src.get(b.id) == "POST_PROCESS_FUNCTION_MAP[distribution][calculation]"
-    canon = any(isinstance(st, ast.Assign) and unparse(st.targets[0]) == "distribution" and "DISTRIBUTION_MAP" in unparse(st.value)
-                for st in own_nodes(fac.node))
-    if good and canon:
-        ck.ok(rule, fac.qualname, "returns (PRE[dist][calc], POST[dist][calc]) after alias resolution")
+    iface = factory_interface(prog)
+    allp = list(fac.params) + [k for k in fac.kwonly if k not in fac.params]
+    if not {"distribution", "calculation"} <= set(allp):
+        raise AnalysisError(f"{fac.qualname}: parameters are {allp}")
+    DIST, CALC = sp.Symbol("distribution", real=True), sp.Symbol("calculation", real=True)
+    leaves = PathTable(prog, fac.module, unroll=True).leaves(fac.node.body)
+    dm = prog.registry("constants", "DISTRIBUTION_MAP")
+    worlds = [(k, v.value) for k, v in dm.items() if isinstance(v, ast.Constant)] + [("<other>", None)]
+    X = sp.Symbol("x", positive=True)
+    problems = []
+    for key, canon in worlds:
+        for calc in ("mean", "std"):
+            world = {DIST: sp.Symbol(f"'{key}'"), CALC: sp.Symbol(f"'{calc}'")}
+            rows = outcomes(leaves, world)
+            if canon is None:
+                if any(r["exit"] == "return" and not r["failed"] for r in rows):
+                    problems.append(f"the unknown name {key} is not refused")
+                continue
+            rets_ = [r for r in rows if r["exit"] == "return" and not r["failed"]]
+            if len(rets_) != 1:
+                problems.append(f"'{key}'/{calc}: {len(rets_)} returning paths")
+                continue
+            v = tidy_items(specialise(rets_[0]["value"], world))
+            if not isinstance(v, sp.Tuple) or len(v) != iface["n"]:
+                problems.append(f"'{key}'/{calc}: returns {str(v)[:80]}")
+                continue
+            for role, want in (("pre", want_pre[(canon, calc)]), ("post", want_post[(canon, calc)])):
+                got = tidy_items(specialise(sp.Function("call")(v[iface[role]], X), world))
+                if not equal(got, want.xreplace({x: X})):
+                    problems.append(f"'{key}'/{calc}: the {role}-processing function gives {got} for x; expected {want}")
+            if iface["canon"] is not None and v[iface["canon"]] != sp.Symbol(f"'{canon}'"):
+                problems.append(f"'{key}': the canonical name handed back is {v[iface['canon']]}")
+    if not problems:
+        ck.ok(rule, fac.qualname, "returns (PRE[dist][calc], POST[dist][calc]) after alias resolution", detail=f"{len(worlds) - 1} spellings x 2 calculations; other names refused")
     else:
         ck.violation(rule, fac.qualname, "return (pre, post)",
-                     f"the factory does not return (PRE_PROCESS_FUNCTION_MAP[d][c], POST_PROCESS_FUNCTION_MAP[d][c]) in that order "
-                     f"(sources {src}; alias map used: {canon})", loc=fac.loc())
+                     f"the factory does not hand back the stated pre- / post-processing functions for every accepted name: {'; '.join(sorted(set(problems))[:3])}", loc=fac.loc())
 
     _weighted_estimators(ck, prog, rule)
 
@@ -317,6 +331,56 @@ def _leaves(prog: Program, f: Func, cls: Optional[Class] = None):
     from ..pathtable import PathTable
     hook = pkg_call_hook(prog, f.module, cls)
     return PathTable(prog, f.module, call_hook=hook).leaves([st for st in f.node.body])
+
+
+def factory_interface(prog: Program) -> Dict[str, Optional[int]]:
+    """Positions of (pre-processing function, post-processing function, canonical distribution name) in the tuple returned by
+    statistics._distribution_factory, from where each returned element comes from (the PRE / POST tables, DISTRIBUTION_MAP)."""
+    from ..dataflow import value_sources
+    f = prog.func("statistics._distribution_factory")
+    rets = [r for r in own_nodes(f.node) if isinstance(r, ast.Return) and isinstance(r.value, ast.Tuple)]
+    if len(rets) != 1:
+        raise AnalysisError(f"{f.qualname}: expected one `return (<elements>)`, found {len(rets)}")
+    out: Dict[str, Optional[int]] = {"pre": None, "post": None, "canon": None, "n": len(rets[0].value.elts)}
+    for i, e in enumerate(rets[0].value.elts):
+        _ps, stmts = value_sources(f, e, rets[0])
+        names = {n.id for node in [e] + list(stmts) for n in ast.walk(getattr(node, "value", node) or node) if isinstance(n, ast.Name)}
+        if "PRE_PROCESS_FUNCTION_MAP" in names:
+            out["pre"] = i
+        elif "POST_PROCESS_FUNCTION_MAP" in names:
+            out["post"] = i
+        elif "DISTRIBUTION_MAP" in names:
+            out["canon"] = i
+    if out["pre"] is None or out["post"] is None:
+        raise AnalysisError(f"{f.qualname}: the returned tuple does not hold the pre- and post-processing functions")
+    return out
+
+
+def call_term(prog: Program, qualname: str, **given):
+    """The canonical term of a call of a package function with the given arguments *by parameter name* (what pkg_call_hook
+    produces for any spelling of such a call): independent of the order / keyword-only style of the callee's signature."""
+    from ..expr import Translator as _T
+    g = prog.func(qualname)
+    names = list(g.params) + [k for k in g.kwonly if k not in g.params]
+    missing = [k for k in given if k not in names]
+    if missing:
+        raise AnalysisError(f"{qualname}: no parameter named {missing} (parameters are {names})")
+    defaults = g.defaults()
+    args = []
+    for p_ in names:
+        if p_ in given:
+            args.append(given[p_])
+        elif p_ in defaults:
+            args.append(sp.Function("default")(_T().tr(defaults[p_])))
+        else:
+            args.append(sp.Symbol("<missing>"))
+    return sp.Function(g.name)(*args)
+
+
+def args_by_name(prog: Program, qualname: str, term) -> Dict[str, sp.Expr]:
+    g = prog.func(qualname)
+    names = list(g.params) + [k for k in g.kwonly if k not in g.params]
+    return dict(zip(names, term.args))
 
 
 def _weighted_estimators(ck: Checker, prog: Program, rule: str):
@@ -362,11 +426,13 @@ def _weighted_estimators(ck: Checker, prog: Program, rule: str):
 
     for fname, calc in (("_nanmean_weighted", "mean"), ("_nanstd_weighted", "std")):
         f = prog.func(f"statistics.{fname}")
-        if f.params[:3] != ["distribution", "values", "weights"]:
-            raise AnalysisError(f"{f.qualname}: parameters are {f.params}")
-        fac = sp.Function("_distribution_factory")(dist, sp.Symbol(f"'{calc}'"))
-        pre = lambda x: call(gi(fac, sp.Integer(0)), x)    # noqa: E731
-        post = lambda x: call(gi(fac, sp.Integer(1)), x)   # noqa: E731
+        allp = list(f.params) + [k for k in f.kwonly if k not in f.params]
+        if not {"distribution", "values", "weights"} <= set(allp):
+            raise AnalysisError(f"{f.qualname}: parameters are {allp}")
+        iface = factory_interface(prog)
+        fac = call_term(prog, "statistics._distribution_factory", distribution=dist, calculation=sp.Symbol(f"'{calc}'"))
+        pre = lambda x: call(gi(fac, sp.Integer(iface["pre"])), x)    # noqa: E731
+        post = lambda x: call(gi(fac, sp.Integer(iface["post"])), x)   # noqa: E731
         V = pre(v)
         leaves = _leaves(prog, f)
         rets = [l for l in leaves if l.exit == "return"]
@@ -388,6 +454,8 @@ def _weighted_estimators(ck: Checker, prog: Program, rule: str):
                 DMs = R("DISTRIBUTION_MAP")
                 low = sp.Function("lower")(dist)
                 subjects = [dist] + [fn_(DMs, d_, *rest) for d_ in (dist, low) for fn_, rest in ((sp.Function("get"), (NONE,)), (sp.Function("get"), ()), (gi, ()))]
+                if iface["canon"] is not None:
+                    subjects.append(gi(fac, sp.Integer(iface["canon"])))       # the canonical name handed back by the factory
                 logn = None
                 for subj in subjects:
                     c_ = case(l, sp.Eq(subj, sp.Symbol("'lognormal'"), evaluate=False))
@@ -403,7 +471,8 @@ def _weighted_estimators(ck: Checker, prog: Program, rule: str):
                 for a in sp.preorder_traversal(l.value):
                     if getattr(a, "func", None) is not None and getattr(a.func, "__name__", "") == "_nanmean_weighted":
                         M = a
-                if M is None or list(M.args[:3]) != [dist, v, w]:
+                Ma = args_by_name(prog, "statistics._nanmean_weighted", M) if M is not None else {}
+                if M is None or [Ma.get("distribution"), Ma.get("values"), Ma.get("weights")] != [dist, v, w]:
                     ck.violation(rule, f.qualname, "numerator", f"deviations are not taken about _nanmean_weighted(distribution, values, weights) (found {M})", loc=f.loc())
                     continue
                 Mx = sp.log(M) if logn else M
@@ -445,8 +514,8 @@ def _nth_std_table(ck: Checker, prog: Program, rule: str):
     from ..pathtable import PathTable, outcomes
     R = lambda n: sp.Symbol(n, real=True)   # noqa: E731
     f = prog.func("statistics._nth_std_factory")
-    if f.params[:4] != ["n", "distribution", "mean", "std"]:
-        raise AnalysisError(f"{f.qualname}: parameters are {f.params}")
+    if not {"n", "distribution", "mean", "std"} <= set(list(f.params) + list(f.kwonly)):
+        raise AnalysisError(f"{f.qualname}: parameters are {f.params} / {f.kwonly}")
     mean, std, n, dist = R("mean"), R("std"), R("n"), R("distribution")
     wants = {"normal": mean + n * std, "lognormal": sp.exp(sp.log(mean) + n * std)}
     leaves = PathTable(prog, f.module, call_hook=pkg_call_hook(prog, f.module, None), unroll=True).leaves(list(f.node.body))
@@ -640,7 +709,22 @@ def check_alias_discipline(ck: Checker, prog: Program, rule: str, modules=("stat
             for c, x in sites:
                 n += 1
                 defs = rd.def_stmts(x.id, c)
-                raw = [d for d in defs if d is PARAM or not (isinstance(d, ast.Assign) and "DISTRIBUTION_MAP" in {nn.id for nn in ast.walk(d.value) if isinstance(nn, ast.Name)})]
+
+                def resolved(d, name=x.id):
+                    if d is PARAM or not isinstance(d, ast.Assign):
+                        return False
+                    if "DISTRIBUTION_MAP" in {nn.id for nn in ast.walk(d.value) if isinstance(nn, ast.Name)}:
+                        return True
+                    # the canonical name handed back by _distribution_factory
+                    if isinstance(d.value, ast.Call) and call_name(d.value) == "_distribution_factory" and isinstance(d.targets[0], (ast.Tuple, ast.List)):
+                        try:
+                            ic = factory_interface(prog)["canon"]
+                        except AnalysisError:
+                            return False
+                        els = d.targets[0].elts
+                        return ic is not None and ic < len(els) and isinstance(els[ic], ast.Name) and els[ic].id == name
+                    return False
+                raw = [d for d in defs if not resolved(d)]
                 if not raw:
                     ck.ok(rule, f.qualname, norm_key(c), detail="compares the name resolved through DISTRIBUTION_MAP")
                 else:
